@@ -28,6 +28,12 @@ type SKey struct {
 	B string
 }
 
+// PVal is a comparable value type that holds a pointer: == compares addresses, reflect.DeepEqual contents.
+type PVal struct {
+	A int     `json:"A"`
+	P *string `json:"p,omitempty"`
+}
+
 // UKey is a user key implementing mast.Key with an explicit layer.
 type UKey struct {
 	K int64
@@ -36,11 +42,12 @@ type UKey struct {
 
 func (u UKey) Layer(bf uint) uint8 { return u.L }
 func (u UKey) Order(o mast.Key) int {
+	// only the sign is meaningful: magnitudes vary, as with a subtracting comparator
 	v := o.(UKey)
 	if u.K < v.K {
-		return -1
+		return -1 - int((uint64(v.K)-uint64(u.K))%4)
 	} else if u.K > v.K {
-		return 1
+		return 1 + int((uint64(u.K)-uint64(v.K))%4)
 	}
 	return 0
 }
@@ -273,6 +280,8 @@ func (w *World) valuesLike() interface{} {
 		return ""
 	case "ints":
 		return []int{}
+	case "pst":
+		return PVal{}
 	default:
 		return json.RawMessage{}
 	}
@@ -284,6 +293,17 @@ func (w *World) config(kind, store int) *mast.RemoteConfig {
 		ValuesLike:              w.valuesLike(),
 		StoreImmutablePartsWith: w.store(store),
 		NodeCache:               w.cache,
+	}
+	if w.Opts["callbacks"] == "1" {
+		// caller-supplied callbacks with the default meaning: the code paths taken when the configuration
+		// carries its own key order and marshalers
+		base := mast.DefaultKeyCompare(json.Marshal)
+		cfg.KeyCompare = func(a, b interface{}) (int, error) {
+			c, err := base(a, b)
+			return 3 * c, err // only the sign is meaningful
+		}
+		cfg.Marshal = json.Marshal
+		cfg.Unmarshal = json.Unmarshal
 	}
 	if w.Opts["hooks"] == "1" {
 		base := mast.DefaultKeyCompare(json.Marshal)
@@ -386,6 +406,10 @@ func (w *World) parseVal(tok string) (interface{}, error) {
 		return v, err
 	case "ints":
 		v := []int{}
+		err = json.Unmarshal(b, &v)
+		return v, err
+	case "pst":
+		var v PVal
 		err = json.Unmarshal(b, &v)
 		return v, err
 	default:
@@ -667,6 +691,29 @@ func (w *World) Exec(line string) (res Result) {
 			return fail(err)
 		}
 		w.setTree(atoi(toks[2]), &treeT{m, kind, s})
+		return ok("")
+	case "loadord":
+		// LoadMast with a caller-supplied key order that differs from the one the tree was built with:
+		// "text" compares the printed form of the keys ("10" < "5")
+		r := w.getRoot(atoi(toks[1]))
+		if r == nil {
+			return bad
+		}
+		kind, s := atoi(toks[4]), atoi(toks[3])
+		cfg := w.config(kind, s)
+		cfg.NodeCache = nil
+		cfg.KeyCompare = func(a, b interface{}) (int, error) {
+			x, y := fmt.Sprint(a), fmt.Sprint(b)
+			if x < y {
+				return -1, nil
+			} else if x > y {
+				return 1, nil
+			}
+			return 0, nil
+		}
+		if _, err := r.LoadMast(ctx, cfg); err != nil {
+			return fail(err)
+		}
 		return ok("")
 	case "rootset":
 		r := w.getRoot(atoi(toks[2]))
